@@ -38,7 +38,7 @@ type taintSetup struct {
 }
 
 func newTaint(t *tape.Tape, tier Tier, res *Result, alpha gen.Alphabet, allowUnknowing bool, prop string) *taintSetup {
-	cfg := gen.Config{Alpha: alpha, Swarm: true, MaxDepth: 6, MaxNodes: 14, Verbs: true, Alias: true, RichArgs: true, LongStrings: true}
+	cfg := gen.Config{Alpha: alpha, Swarm: true, MaxDepth: 6, MaxNodes: 14, Verbs: true, Alias: true, RichArgs: true, LongStrings: true, ExtraArgs: true}
 	if tier == Thorough {
 		cfg.MaxDepth, cfg.MaxNodes = 7, 24
 	}
